@@ -1159,4 +1159,40 @@ func TestC37Known_HeaderLine(t *testing.T) {
 	s.Note(c, true, "known-repro")
 }
 
+// TestC37Known_PoolReadOnly hammers the narrow window of the listed
+// pool-unusable finding: a tiny query with caller deadlines swept over
+// 0..150 us. The window is a race inside the driver, so a run may not hit it;
+// then nothing is reported (the finding stays listed).
+func TestC37Known_PoolReadOnly(t *testing.T) {
+	s := kit.Begin(t, "C37", "known-pool-readonly", "reproduction attempt: SELECT 1 with caller deadlines 0..149 us, up to 30 000 (quick) / 200 000 (thorough) attempts, PRAGMA query_only read back through the pool after each")
+	defer s.End()
+	if kit.ReplayMode() {
+		t.Skip()
+	}
+	dir := caseDir("c37k")
+	defer os.RemoveAll(dir)
+	dbPath := filepath.Join(dir, "trace.sqlite3")
+	copyFile(dbPath, c37BuildTemplate(0))
+	srv := daisen2.NewReplayServer(dbPath, "")
+	pool := daisen2.VerifDB(srv)
+	defer pool.Close()
+	_, _ = pool.Exec("PRAGMA synchronous=OFF")
+	attempts := kit.Scale(30_000, 200_000)
+	for i := 0; i < attempts; i++ {
+		us := i % 150
+		ctx, cancel := context.WithTimeout(context.Background(), time.Duration(us)*time.Microsecond)
+		_, qerr := daisen2.VerifRunDataQuery(ctx, srv, "SELECT 1")
+		cancel()
+		_, werr := pool.Exec(`CREATE TABLE IF NOT EXISTS verif_scratch (x)`)
+		if werr != nil && strings.Contains(werr.Error(), "readonly") {
+			c := c37Case{Template: 0, Queries: []c37Query{{SQL: "SELECT 1", Via: "direct", DeadlineUS: us, Kind: "select"}}}
+			s.KnownStillFails(t, c, "pool-unusable:readonly:engine-timeout", fmt.Sprintf("attempt %d: SELECT 1 with a %d us caller deadline returned %v and left the pooled connection read-only: %v", i, us, qerr, werr))
+			s.Note(c, true, "known-repro")
+			s.Extra("attempts_until_hit", i+1)
+			return
+		}
+	}
+	s.Note(c37Case{}, false, "not-reproduced-this-run")
+}
+
 var _ = io.Discard
